@@ -12,6 +12,7 @@ pub mod c14;
 pub mod c15;
 pub mod c17;
 pub mod c18;
+pub mod c19;
 
 use crate::engine::Prop;
 
@@ -31,6 +32,7 @@ pub fn get(id: &str) -> Option<Box<dyn Prop>> {
     "C15" => Some(Box::new(c15::C15)),
     "C17" => Some(Box::new(c17::C17)),
     "C18" => Some(Box::new(c18::C18)),
+    "C19" => Some(Box::new(c19::C19)),
     _ => None,
   }
 }
